@@ -3,3 +3,14 @@
 // Other(&'static str), Str(String)).  Only the mapping done by rooc is checked; what good_lp / Clarabel report is ASSUMED.
 // ===================================================================================
 pub enum ResolutionError { Unbounded, Infeasible, Other(&'static str), Str(String) }
+// good_lp::VariableDefinition as documented: a builder; `binary()` makes the variable integer with bounds [0, 1]; `integer()` makes it integer;
+// `min` / `max` set the bounds; `name` sets the name.  The ghost fields record what was set.
+pub struct VariableDefinition { pub ghost gmin: Ext, pub ghost gmax: Ext, pub ghost gint: bool, pub ghost gname: Seq<char> }
+impl VariableDefinition {
+    #[verifier::external_body] pub fn new() -> (r: VariableDefinition) ensures r.gmin == Ext::NegInf, r.gmax == Ext::PosInf, !r.gint { unimplemented!() }
+    #[verifier::external_body] pub fn name(self, n: &str) -> (r: VariableDefinition) ensures r.gmin == self.gmin, r.gmax == self.gmax, r.gint == self.gint, r.gname == n@ { unimplemented!() }
+    #[verifier::external_body] pub fn binary(self) -> (r: VariableDefinition) ensures r.gmin == Ext::Fin(0real), r.gmax == Ext::Fin(1real), r.gint, r.gname == self.gname { unimplemented!() }
+    #[verifier::external_body] pub fn integer(self) -> (r: VariableDefinition) ensures r.gmin == self.gmin, r.gmax == self.gmax, r.gint, r.gname == self.gname { unimplemented!() }
+    #[verifier::external_body] pub fn min(self, v: F64) -> (r: VariableDefinition) ensures r.gmin == fv(v), r.gmax == self.gmax, r.gint == self.gint, r.gname == self.gname { unimplemented!() }
+    #[verifier::external_body] pub fn max(self, v: F64) -> (r: VariableDefinition) ensures r.gmin == self.gmin, r.gmax == fv(v), r.gint == self.gint, r.gname == self.gname { unimplemented!() }
+}
